@@ -306,10 +306,19 @@ class Eval:
                     raise Opaque('shift by non-constant')
                 return self.vec([lane_norm((op[0], x, c[1])) for x in a[1]])
         # pointer plumbing
+        if re.search(r'(<impl \[T; N\]>|<impl \[T\]>)::split_at(_mut)?$', p):
+            v = args[0]
+            if isinstance(v, tuple) and v[0] == 'ref':
+                v = v[1]
+            if args[1][0] != 'const' or not (isinstance(v, tuple) and v[0] == 'blk'):
+                raise Opaque('split_at of %r at %r' % (v, args[1]))
+            return ('tuple', (('ref', ('part', v, 0)), ('ref', ('part', v, args[1][1]))))
         if re.search(r'(<impl \[T; N\]>|<impl \[T\]>)::as_(mut_)?ptr$', p):
             v = args[0]
             if isinstance(v, tuple) and v[0] == 'ref':
                 v = v[1]
+            if isinstance(v, tuple) and v[0] == 'part':
+                return ('ptr', v[1], v[2])
             return ('ptr', v, 0)
         if re.search(r'^std::ptr::from_(ref|mut)$', p):
             v = args[0]
